@@ -148,7 +148,7 @@ def run(ctx):
     nm = 150 if ctx.tier == "quick" else 4000
     for _ in range(nm):
         insts, exp = lg.module(nops=rnd.choice([3, 6, 10]))
-        version = 0x00010000 | (rnd.randrange(7) << 8)
+        version = instgen.some_version(rnd)
         words = instgen.header(version=version, bound=10000)
         for i in insts:
             words += i.words()
